@@ -639,6 +639,7 @@ func runC19(c *Check) {
 				"Stop marks the stop as final (hardStop) on every path before it waits for the run loop", "Stop can wait for the run loop without having marked the stop as final: if a restart was already in progress the run loop reconnects and Stop waits forever")
 		}
 		c.Min("R9", "wait loops in Stop", nWait, 1)
+		c.ruleRestartNotBehindStopping("R10")
 		var rq []ssa.Instruction
 		for _, s := range callsTo(fn, "(*spynode.Node).requestStop") {
 			rq = append(rq, s.Instr)
